@@ -6,6 +6,7 @@ generated or hand-written model of the code does not.
 import Switcher.Spec.Frame
 import Switcher.Spec.Devices
 import Switcher.Spec.Days
+import Switcher.Spec.Clock
 import Switcher.Model.Wire
 open Spec Wire
 
@@ -46,6 +47,13 @@ def judge : List String → String
     | some v =>
       if 2 ≤ v ∧ v ≤ 254 then (if observed == showNats (daysOfMask v.toNat) then "1" else "0")
       else (if observed == "raise" then "1" else "0")
+    | none => "bad-arg"
+  | ["c14", sm, em, observed] =>                  -- C14: duration text of (end - start) mod 24 h
+    match nat? sm, nat? em, text? observed with
+    | some a, some b, some t => if a < 1440 && b < 1440 && t == durationText (duration a b) then "1" else "0"
+    | _, _, _ => "bad-arg"
+  | ["hhmm", m] => match nat? m with
+    | some v => String.ofList (hhmm v)
     | none => "bad-arg"
   | _ => "bad-op"
 
